@@ -38,6 +38,12 @@ CHECKS["C10"] = ("metamorphic relation: re-encode the survey with dimensions exc
 CHECKS["C15"] = ("respondent-level sums vs. row / column / total share over base-cell totals, incl. inserted rows, columns and intersections (Hypothesis)",
     "Generated-input search on sum responses (CAT x CAT, MR x CAT, CAT x MR, NUM_ARRAY x CAT/MR, strands) with NaN sums and random insertions on rows and/or columns; every share is compared with sum / base-cell total recomputed from respondents; base shares sum to 1. Found the inserted-row / intersection denominators defect (fixed).",
     "Differences and inserted cells with a NaN addend are not judged (statement silent / encoder-dependent).", "6 C15")
+CHECKS["C11"] = ("respondent-level weighted variance of the +1/-1/0 indicator over each proportion's base vs variances, std-dev, std-err, MoE (Hypothesis)",
+    "Generated-input search: for every cell (ordinary, subtotal, difference, intersection) and direction the variance is recomputed by looping over the respondents of the base with the signed indicator, then sqrt, sqrt(var/base) and 1.959964x; compared with 12 slice outputs and 3 strand outputs; non-negativity and NaN rules. One degenerate-input finding recorded (same id as addend and subtrahend).",
+    "Wave differences (categorical-date) are not judged; tolerance 1e-9.", "6 C11")
+CHECKS["C12"] = ("statement formula from respondent-level counts and per-cell bases; erfc p-values; 2x2 Pearson chi-square; exact rational rank for the degenerate rule (Hypothesis)",
+    "Generated-input search over all pairings incl. MR per-cell bases, subtotal rows/columns and deliberately degenerate tables: z and p recomputed per cell from the oracle's bases, chi-square identity on 2x2, all-NaN when the exact rank of the base counts is < 2.",
+    "Zero-denominator cells only required non-finite; p-values via math.erfc (different route from scipy.stats.norm).", "6 C12")
 NOT_BUILT = {}
 
 def main():
